@@ -268,12 +268,16 @@ func enumPathsMode(fn *ssa.Function, mode Mode, limit int, visit func([]*ssa.Bas
 
 func checkC04(c *Ctx) {
 	r := c.R
+	r.Rule("R04.12", "all attributes are members of the object: the loop of serializeAttrs over the (sorted) member list has its natural exit only; a break or return from the body drops every member after that point")
 	r.Rule("R04.1", "escape alphabet: in JSON mode string values and keys go through the JSON escaper only (the Go-syntax quoting routines are unreachable in JSON mode); every backslash-led constant that escaper can emit is a JSON escape; its safe-character table marks exactly the control characters, the quote and the backslash as unsafe; the hex digit table is the constant \"0123456789abcdef\" and is never stored to")
 	r.Rule("R04.2", "no raw user bytes: in JSON mode (mode bits pruned, testing/debug dump excluded) every site that copies a non-constant string into the record verbatim carries only strconv/time output or a user marshaller's output; message, keys, values, error text, fallback formatting, logger name and frame strings reach the record only through the escaper")
 	r.Rule("R04.3", "value tokens: the only literal value constants written in JSON mode are JSON literals (null/true/false); floating-point text (which can be NaN/Inf) is always written between quotes in JSON mode, on every call chain from the value switch down to strconv.AppendFloat")
 	r.Rule("R04.4", "object bracketing: the member-list emitter is always called between an opening and a closing brace emitted by the same function in JSON mode (top level and nested groups), and a member separator is not written right after an opening brace")
 	r.Rule("R04.9", "member grammar: in the member-list emitter every mode-feasible path from a member separator to the next element (or out of the function) writes a key, and every path from a key writes a value (the value switch, the timestamp printer or a value stringer), so no element is dropped after its separator")
 	r.Rule("R05.10", "(shared with C05) the message is handed on as given from the verbs to the encoder's message field")
+	r.Rule("R19.1", "(shared with C19) the record is the bytes the encoder appended: the write side of the formatting buffer (Write*, Grow, Truncate, Reset, Bytes and their helpers) is isomorphic to bytes.Buffer")
+	r.Rule("R15.4", "(shared with C15) every attribute with its own value: handlers derived for log/slog own a fresh copy of the bound field list (siblings do not overwrite each other's attributes)")
+	r.Rule("R02.3", "(shared with C02) every record is one JSON object: the only payload that is not the finished buffer is the blank line of Print/Println, taken exactly for lvl == AlwaysLevel with a blank message")
 	r.Rule("R04.10", "array grammar: in every list writer that separates elements by ',' each function of the package called in the loop that can write to the record writes on every mode-feasible path, so no element is empty")
 	r.Rule("R04.11", "built-in kinds first: in the value switch every site that reaches an invoke of MarshalJSON / MarshalText is dominated by the miss edge of the time.Time arm (user marshallers are consulted only for values no built-in arm matched)")
 	r.Rule("R02.6", "(shared with C02) the pooled formatting context is returned to the pool by the normal path only, after the Write, and not used afterwards: a context put back by a deferred call after a panic inside a value's own method carries the half-built state (group prefix, colours) into the records that follow")
@@ -301,6 +305,8 @@ func checkC04(c *Ctx) {
 		c04Escaper(c, p, m, mr)
 		c04Tokens(c, p, m, mr)
 		valueFidelity(c, p, m, mr, "R04.8")
+		elementsSamePrinter(c, p, m, "R04.8")
+		attrsTraversal(c, p, "R04.12")
 		escaperNoLoss(c, p, "R04.8")
 		messageIdentity(c, p, "R05.10")
 		messageEmittedAsIs(c, p, m, mr, "R05.10")
@@ -310,6 +316,9 @@ func checkC04(c *Ctx) {
 		c04Members(c, p, m, mr)
 		c04Elements(c, p, m, mr)
 		c04BuiltinFirst(c, p, m)
+		c19WriteSide(c, p)
+		c15Derived(c, p, m)
+		c02Newline(c, p, m)
 		fixedMemberGrammar(c, p, m, jsonMode, "R05.11")
 		newlineRule(c, p, mr, "R04.5", map[string]string{"PrintCtx.End": "the record terminator of End(true)", "PrintCtx.EndArray": "EndArray(newline) for user marshallers", "Entry.printImpl": "blank-line shortcut"})
 		// the same with the testing/debug-only branches included: in JSON mode the post-record error dump is skipped, so
